@@ -20,7 +20,8 @@ REPO_SRC = REPO / "src"
 PY = "/venv/bin/python"
 DEPS = VERIF / ".deps"
 BUILD = VERIF / ".build"
-EVIDENCE = VERIF / "evidence"
+# runs against a scratch copy of the repository (REDU_REPO set) must not overwrite the committed evidence
+EVIDENCE = Path(os.environ["VERIF_EVIDENCE_DIR"]) if os.environ.get("VERIF_EVIDENCE_DIR") else VERIF / "evidence"
 REPLAYS = VERIF / "replays"
 GUARD = "REDUINO_VERIF"
 
